@@ -1022,7 +1022,9 @@ func ParseAggregateTypeWithExpression(exprStr string) (aggType aggregator.Aggreg
 		// If not a function call but contains operators or keywords, it might be an expression
 		if strings.ContainsAny(exprStr, "+-*/<>=!&|") ||
 			strings.Contains(strings.ToUpper(exprStr), "AND") ||
-			strings.Contains(strings.ToUpper(exprStr), "OR") {
+			strings.Contains(strings.ToUpper(exprStr), "OR") ||
+			strings.HasPrefix(strings.ToUpper(trimmed), "NOT ") ||
+			strings.HasPrefix(strings.ToUpper(trimmed), "NOT(") {
 			// Handle as expression
 			if parsedExpr, err := expr.NewExpression(exprStr); err == nil {
 				allFields = parsedExpr.GetFields()
